@@ -20,13 +20,17 @@ class Decider:
                       'cvc5': {'sat': 0, 'unsat': 0, 'unknown': 0, 'error': 0, 'time_s': 0.0},
                       'disagreements': 0}
         self.nq = 0
+        self.logic = None        # e.g. 'QF_FPBV' for pure bit-vector / floating-point queries (eager bit-blasting)
 
     def check(self, conds, lemmas=(), want_model=True, label=''):
         """returns ('sat', model) / ('unsat', None) / ('unknown', reason)"""
-        s = z3.Solver()
+        s = z3.SolverFor(self.logic) if self.logic else z3.Solver()
         s.set('timeout', int(self.timeout_s * 1000))
         if self.seed:
-            s.set('random_seed', self.seed & 0x7fffffff)
+            try:
+                s.set('random_seed', self.seed & 0x7fffffff)
+            except z3.Z3Exception:
+                pass
         uses_pow2 = any('pow2' in c.sexpr() for c in list(conds) + list(lemmas)) if conds else False
         if uses_pow2:
             for ax in POW2_AXIOMS:
